@@ -45,11 +45,46 @@ MANIFEST = dict(
         "oracle-only configuration cases (harness alone, no Lean model): weighted sums / SubrangeKernels with ADAPTIVE sub-kernels "
         "(setAdaptiveAll: sub-kernel parameters in the parameter vector and in weightedParameterDerivative), unconstrained (log) encodings "
         "of the polynomial offset and the Gaussian gamma, ARD with arbitrary gammas, each with a setParameterVector in the middle, judged "
-        "by claim/symmetry/block=single/Gram/eigenvalue/finite-difference oracles."),
+        "by claim/symmetry/block=single/Gram/eigenvalue/finite-difference oracles. "
+        "DEEPENED (branch deep2-c05): the DERIVATIVE CODE OF EVERY COMPOSED KERNEL CLASS is modelled the way the C++ is written - as code that "
+        "calls the wrapped kernel's derivative function (Model/KernelGrad.lean: monoInputDeriv, normParamGradG / normInputGrad over the state "
+        "kxy/kxx/kyy, SubrangeKernelWrapper slicing and column embedding, wsumInputCombine, wsumSubCombine for ADAPTIVE sub-kernels "
+        "(setAdaptiveAll: Kern.numParamsA / setParamsA / paramGradA with the adaptivity flag), ModelKernel's chain rule through both arguments "
+        "with LinearModel::weightedParameterDerivative, PointSetKernel's per-pair accumulation) - and Kern.paramGradA / Kern.inputGradA plug them "
+        "together along any kernel expression; ops pderiv / ideriv on composed kernels and the new op gderivx "
+        "(calculateKernelMatrixParameterDerivative over a batch partition, model gramParamDeriv) are compared EXACTLY (Rat) and bit for bit (Float) "
+        "on every run: polynomial-type leaves, power-of-two scalings and weight sums, NormalizedKernel over points whose norms are powers of two "
+        "(square roots and quotients exact; the Rat driver has an exact rational sqrt), integer affine ModelKernels, before and after "
+        "setParameterVector, with and without adaptall. Theorems (Props/C05b.lean, HasDerivAt over R): monomial_weightedInputDerivative "
+        "(exponent >= 2 incl. the safe_div branch; exponent 1 = linear), subrange_weightedParameterDerivative and "
+        "mapped_weightedParameterDerivative (kernel-parameter part of ModelKernel) via weightedSum_comap, wsum_subkernel_hasDerivAt "
+        "((w_i/W) * kernelGrad_i is the derivative in a parameter of adaptive sub-kernel i, any sub-kernel expressions), "
+        "normalized_weightedParameterDerivative_partial (the value NormalizedKernel computes from its state is the derivative of "
+        "c*k/sqrt(kxx)/sqrt(kyy): chain rule through the quotient and both square roots, base diagonal > 0, any differentiable base family), "
+        "gram_parameterDerivative_correct / gram_parameterDerivative_partition_independent (the blockwise lower-triangle sum with doubled "
+        "off-diagonal blocks = sum_r sum_c W_rc dk(x_r,x_c) for EVERY list of batches incl. empty ones, symmetric W), instantiated end to end by "
+        "gauss_gram_parameterDerivative; evalSkip_overloads_agree; multiTask_psd / multiTask_symm. "
+        "NEW KERNEL CLASSES REACHED ON EVERY RUN (second harness harness/c05b.cpp, structured inputs): GaussianTaskKernel (model taskTable = "
+        "computeMatrix in the C++ loop order, bit-for-bit; independent oracle: the table from its definition, batching of the task data, "
+        "setParameterVector / setGamma on the live object) and MultiTaskKernel (single / block / Gram = product of the two projections, model "
+        "multiTaskEval / multiTaskBlock), MklKernel over pairs of vectors (= direct sum, model subrangeKernel; single / block / sblock / "
+        "featureDistanceSqr single+batch / Gram / flags / setParameterVector / gderiv / dcheck); in harness/c05.cpp KernelExpansion as a "
+        "function (ops kexp / kx: basis batched arbitrarily, several outputs, with and without offset; model kexpEval; oracle from single "
+        "evaluations) and evalSkipMissingFeatures (both overloads, NaN masks on both inputs and the missingness vector; model evalSkip3 / "
+        "evalSkip4; oracle: kernel on the filtered vectors, symmetry, refusal of kernels without SUPPORTS_VARIABLE_INPUT_SIZE). "
+        "RE-USED OUTPUT OBJECTS (op stale, every case): both derivative calls of every kernel into pre-filled gradient objects must return what "
+        "a call into a fresh object returns (calculateKernelMatrixParameterDerivative re-uses one blockGradient). "
+        "Two genuine defects found: F-C05-6 gaussian-task-kernel-stale-matrix and F-C05-7 pointset-parameter-derivative-not-cleared (open, "
+        "patches in findings_proposed/)."),
   note=TRUST + "floating-point rounding is outside the theorems (exact-arithmetic statements; 'no negative eigenvalues beyond rounding' "
        "is checked numerically by the harness oracle only); Gaussian/ARD PSD-ness is proved for data of equal dimension (the C++ SIZE_CHECK) and is a hypothesis only in the variant for points of unequal length; derivative theorems cover "
-       "Gaussian/polynomial/linear/ARD/scaled and the weighted-sum log-weights - derivatives of normalised, sub-range, monomial, model, point-set kernels and the "
-       "weighted-sum input derivative are exercised by the finite-difference oracle only (toleranced 2e-5); the Gaussian derivative correspondence is "
+       "Gaussian/polynomial/linear/ARD/scaled, the weighted-sum log-weights and (Props/C05b) monomial input, sub-range parameter, ModelKernel kernel-parameter part, adaptive sub-kernels of sums, and the Gram helper (unequal point dimensions are not accepted by the code: a Data<RealVector> batch is a matrix). "
+       "PROVED ONLY IN PART: normalized_weightedParameterDerivative_partial is stated for 1x1 blocks (the calculus: quotient + two square roots); that the code's row/column sums over a larger block equal the sum of the per-pair derivatives is tied by the exact pderiv correspondence, not proved. "
+       "CORRESPONDENCE + FINITE DIFFERENCES ONLY (modelled and compared exactly, no HasDerivAt theorem): NormalizedKernel::weightedInputDerivative, SubrangeKernelWrapper::weightedInputDerivative (column embedding), WeightedSumKernel::weightedInputDerivative, the LinearModel part of ModelKernel's parameter derivative (needs joint differentiability of the base kernel in both arguments), PointSetKernel::weightedParameterDerivative. "
+       "The exact correspondence of the composed derivative code needs exactly representable values: Gaussian/ARD leaves inside composed kernels, non-power-of-two weights and NormalizedKernel on general points are judged by the finite-difference oracle (2e-5) and the stale-output oracle only. "
+       "GaussianTaskKernel: PSD-ness of the task table (a Gaussian of RKHS distances of mean elements) is not proved (multiTask_psd takes it as hypothesis; the harness checks eigenvalues of MultiTaskKernel Gram matrices); MklKernel is exercised with two vector components (the fusion machinery is generic in the tuple); MissingFeaturesKernelExpansion is not reached (C07/C18 own the SVM models); CSvmDerivative is C07's. "
+       "State re-use: the derivative functions accept a State computed for other batches silently (parameter derivative = the old batches' derivative; probed, see findings_proposed/C05.md) - the documented contract, honoured by all library callers; not a theorem, not checked per run. "
+       "the Gaussian derivative correspondence is "
        "bit-exact on 1x1 blocks only (ARD: all blocks), PointSetKernel with inexact base values only on singleton sets (summation order not modelled); "
        "PSD of PointSetKernel is proved as a quadratic-form statement (pointSet_quadForm_nonneg), not as Matrix.PosSemidef; MultiTaskKernel, MklKernel and the unconstrained parameter encodings of Gaussian/polynomial are not modelled; ARD, normalised and sub-range kernels "
        "cannot be instantiated for sparse inputs in Shark, so the sparse runs cover the other kernels. "
@@ -58,10 +93,12 @@ MANIFEST = dict(
        "log-gammas 0 only, arbitrary ones run oracle-only; adaptive sub-kernels and unconstrained encodings are not in the Lean model "
        "(oracle-only, toleranced); PSD after a history follows from kernel_psd_equalDim applied to the reconfigured expression, an "
        "explicit admissibility-preservation theorem for setFactor/setParams is not stated; read() from an archive into a differently "
-       "configured object is not exercised here (C18). OPEN finding F-C05-5 product-stale-parameter-count (ProductKernel caches its "
-       "parameter count; heap overflow in parameterVector() after a factor's setAdaptiveAll; corpus/C05/product_stale_parameter_count.txt, "
-       "patch findings_proposed/C05-product-stale-parameter-count.patch): while the corpus probe fails the generator keeps sums below a "
-       "product non-adaptive. Four genuine defects found earlier by this check "
+       "configured object is not exercised here (C18). OPEN findings F-C05-6 gaussian-task-kernel-stale-matrix (computeMatrix accumulates into the old table; setGamma/setWidth do not recompute; "
+       "corpus/C05/gaussian_task_kernel_stale_matrix.txt) and F-C05-7 pointset-parameter-derivative-not-cleared (gradient resized, not cleared; "
+       "calculateKernelMatrixParameterDerivative wrong for > 1 batch; corpus/C05/pointset_parameter_derivative_not_cleared.txt): while the corpus "
+       "probes fail the generated stream does not reconfigure live task kernels and does not call the PointSetKernel parameter derivative into "
+       "re-used gradients (on a patched tree both are generated: validated with VERIF_REPO). F-C05-5 product-stale-parameter-count is repaired "
+       "(f6f5bb01; the probe passes, sums below products are made adaptive). Four genuine defects found earlier by this check "
        "(normalized-stateless-block, discrete-block-ignores-indices, monomial-degree1-input-derivative, product-uninitialised-parameter-count) "
        "are repaired in /repo by fix: commits ceaec0f1, f2e5cee8, e15da9fc, dba592e9; their inputs stay in corpus/C05 and the model is the repaired code.",
   technique="Lean 4 proofs by structural induction over a kernel expression language + Mathlib PosSemidef/HasDerivAt + differential correspondence with the C++ (exact / bit mode, ASan/UBSan)",
@@ -69,7 +106,7 @@ MANIFEST = dict(
 
 FINISH = dict(level="proof",
               rule="a case = kernel expression (random composition, depth <= 3, dyadic parameters) + integer points + ops "
-                   "(single / block / sblock / fdist / fdistb / flags / gram over batch partitions / mixed / pderiv / ideriv / dcheck / gderiv / unitvar) "
+                   "(single / block / sblock / fdist / fdistb / flags / gram over batch partitions / mixed / pderiv / ideriv / dcheck / stale / gderiv / gderivx / unitvar / kexp+kx / skip; task / tbatch / tsetparams / tsetgamma / mt; mkl + mk <op>) "
                    "+ in-place reconfigurations (setfactor / setparams / adaptall) with observations after each; non-trivial = composed kernel "
                    "(depth >= 1) or a Gram op with >= 2 batches; distinct = distinct op text")
 
@@ -948,6 +985,32 @@ def run(ctx):
         ctx.hist("gram_partitions_per_case", min(info["parts"], 64) if info["parts"] < 64 else "64+")
         ctx.hist("mode", "exact(Rat)+bit(Float)" if info["exact_case"] else "bit(Float) only")
         for o in ops[2:]: ctx.hist("op_mix", o.split()[0])
+    # boundary classes of the generated inputs (measured, for the evidence)
+    for ops, info in cases:
+        pl = next((o.split() for o in ops if o.startswith("pts ")), None)
+        if pl:
+            n_, d_ = int(pl[1]), int(pl[2]); rows = [tuple(pl[3 + i * d_: 3 + (i + 1) * d_]) for i in range(n_)]
+            if n_ == 1: ctx.hist("boundary_classes", "one point")
+            if len(set(rows)) < n_: ctx.hist("boundary_classes", "duplicate points")
+            if any(all(v == "0" for v in row) for row in rows): ctx.hist("boundary_classes", "zero vector among the points")
+            if d_ == 1: ctx.hist("boundary_classes", "dimension 1")
+        nrec = sum(1 for o in ops if o.split()[0] in ("setparams", "setfactor", "tsetparams", "tsetgamma") or o.startswith("mk setparams"))
+        if nrec >= 2: ctx.hist("boundary_classes", "history with >= 2 reconfigurations of one object")
+        if "adaptall" in ops: ctx.hist("boundary_classes", "adaptive sub-kernels")
+        for o in ops:
+            w = o.split()
+            if w[0] == "task" and len(set(w[3:])) < int(w[1]): ctx.hist("boundary_classes", "task without examples"); 
+            if w[0] == "task" and int(w[1]) == 1: ctx.hist("boundary_classes", "single task")
+            if w[0] in ("gram", "gderivx", "gderiv") and len(w) >= 3 and all(x == "1" for x in w[(2 if w[0] == "gram" else 1):]): ctx.hist("boundary_classes", "all batches of size 1")
+            if w[0] in ("gderivx", "gderiv") and len(w) == 2: ctx.hist("boundary_classes", "one batch")
+            if w[0] in ("pderiv", "ideriv") and int(w[2]) - int(w[1]) == 1 and int(w[4]) - int(w[3]) == 1: ctx.hist("boundary_classes", "1x1 derivative block")
+            if w[0] == "kexp" and w[3] == "1": ctx.hist("boundary_classes", "kernel expansion over one basis batch")
+            if w[0] == "kexp" and w[2] == "0": ctx.hist("boundary_classes", "kernel expansion without offset")
+            if w[0] == "skip" and w[3:] == ["0", "0", "0"]: ctx.hist("boundary_classes", "skip-missing with nothing missing")
+            if w[0] in ("mono",) : pass
+        if " mono 0" in ops[0] or " mono 1" in ops[0]: ctx.hist("boundary_classes", "monomial exponent 0 or 1")
+        if "poly 1 " in ops[0]: ctx.hist("boundary_classes", "polynomial degree 1")
+        if any(t in ops[0] for t in ("wsum 1 ", "wsump 1", "subk 1", "prod 1 ")): ctx.hist("boundary_classes", "sum / product of one kernel")
     ctx.cov["evaluations"] = len(cases)
     ctx.cov["distinct_nontrivial"] = len({"\n".join(o) for o, i in cases
                                           if i["depth"] >= 1 or any(x.startswith("gram") and len(x.split()) > 3 for x in o)})
